@@ -138,6 +138,8 @@ class Eval:
                 return self.ev(ks[-1])
             v = self.ev(ks[-1])
             ct = ctype(A.qtype(n))
+            if ck in ("UserDefinedConversion", "ConstructorConversion", "DerivedToBase", "UncheckedDerivedToBase"):
+                return v
             if ck in ("IntegralCast", "NoOp", "IntegralToBoolean", "BitCast", "PointerToIntegral", "IntegralToPointer",
                       "ArrayToPointerDecay", "FunctionToPointerDecay", "NullToPointer", "PointerToBoolean", "ToVoid"):
                 if ck in ("IntegralToBoolean", "PointerToBoolean"):
